@@ -56,10 +56,11 @@ fn hist<T: CellT + std::hash::Hash>(seed: u64, histories: usize, steps: usize, m
         // paths (2^16 ...) are out of reach of the large histories below
         let bulky = std::mem::size_of::<T>() >= 1024;      // (page-sized elements: the same byte volumes with far fewer cells)
         // (not in fault mode: after a fault the trace specification compares bags of 10^5 live elements - minutes per event)
-        let huge = histories >= 100 && h % 97 == 13 && !bulky && !faults;
+        let huge = histories >= 100 && (h == 12 || h % 97 == 13) && !bulky && !faults;
         let large = huge || rng.chance(25);
         let (nc, nr) = if huge {
-            (262 + rng.below(70), 262 + rng.below(70))
+            // (about 10^6 cells for element types without a ledger entry per element, 10^5 otherwise)
+            if T::TRACKED { (262 + rng.below(70), 262 + rng.below(70)) } else { (1030 + rng.below(30), 1020 + rng.below(30)) }
         } else if large {
             let a = 13 + rng.below(118);
             // often only a few lines in the other direction, so that histories reach "last line removed" on long lines
@@ -70,14 +71,19 @@ fn hist<T: CellT + std::hash::Hash>(seed: u64, histories: usize, steps: usize, m
         } else {
             (1 + rng.below(maxdim), 1 + rng.below(maxdim))
         };
-        let maxdim = if huge { 340 } else if large { 140 } else { maxdim };
+        let maxdim = if huge { 1100 } else if large { 140 } else { maxdim };
         let steps = if huge { steps.min(4) } else if large { steps.min(14) } else { steps };
         let a = json!({"nc": nc, "nr": nr, "items": fresh(nc * nr, &mut next_id)});
         let r = m.call("from_vec", &a, &[nc, nr], LenMode::True);
         emit(&m, "from_vec", &a, &r, &mut events);
         if huge {
             // scripted opening: spare capacity for a line, then a line near the front is removed and its drain partly consumed
-            let script: Vec<(&str, Value)> = if rng.chance(50) {
+            let script: Vec<(&str, Value)> = if h % 3 == 0 {
+                // no spare capacity: the array has to grow
+                vec![("shrink_to_fit", noarg.clone()), ("insert_row", json!({"index": 2 + rng.below(3), "items": fresh(nc, &mut next_id)})),
+                     ("shrink_to_fit", noarg.clone()), ("insert_col", json!({"index": 1, "items": fresh(nr + 1, &mut next_id)})),
+                     ("remove_row", json!({"index": 1})), ("d_next", noarg.clone()), ("d_drop", noarg.clone())]
+            } else if rng.chance(50) {
                 vec![("reserve", json!({"k": nc})), ("remove_row", json!({"index": rng.below(3)})), ("d_next", noarg.clone()),
                      ("d_next_back", noarg.clone()), ("d_drop", noarg.clone())]
             } else {
@@ -272,14 +278,19 @@ fn hist<T: CellT + std::hash::Hash>(seed: u64, histories: usize, steps: usize, m
 fn sort(seed: u64, cases: usize, out: &mut impl Write) {
     let mut rng = Rng(seed);
     for case in 0..cases {
-        let by_row = rng.chance(50);
+        // two MEGA lines per run (one by column, one by row): beyond 2^18 entries - element-COUNT
+        // thresholds of "large array" paths; always stable variants (THE result is defined, and checkable in linear time),
+        // always through a window narrower than its parent
+        let mega = case == 3 || case == 7;
+        let by_row = if mega { case == 7 } else { rng.chance(50) };
         // mostly 24..163; sometimes the gap 5..23 below it; sometimes thousands (swap traces beyond any small buffer)
-        let huge = rng.chance(8);
-        let long = if huge { 1026 + rng.below(1500) } else if rng.chance(15) { 5 + rng.below(19) } else { 24 + rng.below(140) };
-        let short = 1 + rng.below(if huge { 5 } else { 3 });
+        let huge = mega || rng.chance(8);
+        let long = if mega { (1 << 18) + 17 + rng.below(3000) }
+                   else if huge { 1026 + rng.below(1500) } else if rng.chance(15) { 5 + rng.below(19) } else { 24 + rng.below(140) };
+        let short = if mega { 2 } else { 1 + rng.below(if huge { 5 } else { 3 }) };
         let (nc, nr) = if by_row { (long, short) } else { (short, long) };
         // the receiver sits inside a parent with a margin (stride > width) two times out of three
-        let (mc, mr) = if rng.chance(66) { (1 + rng.below(2), rng.below(2)) } else { (0, 0) };
+        let (mc, mr) = if mega { (1, 0) } else if rng.chance(66) { (1 + rng.below(2), rng.below(2)) } else { (0, 0) };
         let (pc, pr) = (nc + 2 * mc, nr + 2 * mr);
         let line = rng.below(if by_row { nr } else { nc });
         let stable = huge || rng.chance(60);
